@@ -52,11 +52,127 @@ Lemma iter_fixed_stays {A} (q : A -> A) a n :
 Proof. intros E m Hm. induction Hm as [|m Hm IH]; [reflexivity|].
   change (q (Nat.iter m q a) = Nat.iter n q a). rewrite IH. exact E. Qed.
 
+(* ---------- shapes are preserved: a unary walk through generated let-chains ---------- *)
+(* shape and data length of an array *)
+Definition sig {A} (a : arr A) : list Z * nat := (shape a, length (dat a)).
+Lemma sig_set {A} (a : arr A) idx v : sig (set a idx v) = sig a.
+Proof. unfold sig, set; cbn [shape dat]. rewrite upd_length. reflexivity. Qed.
+Lemma sig_wf {A} (a b : arr A) : sig a = sig b -> wf b -> wf a.
+Proof. unfold sig, wf. intros E. injection E as -> ->. auto. Qed.
+
+(* "every array in the state has the shape and data length it had in the reference state", by type *)
+Class Shp (S : Type) := {
+  shp : S -> S -> Prop;
+  shp_refl : forall s, shp s s;
+  shp_trans : forall a b c, shp a b -> shp b c -> shp a c }.
+#[global] Instance Shp_arr A : Shp (arr A).
+Proof. refine {| shp a b := sig a = sig b |}; [reflexivity | intros; congruence]. Defined.
+#[global] Instance Shp_pair A B `{Shp A} `{Shp B} : Shp (A * B).
+Proof. refine {| shp s t := shp (fst s) (fst t) /\ shp (snd s) (snd t) |}.
+  - intros s; split; apply shp_refl.
+  - intros a b c [H1 H2] [H3 H4]; split; eapply shp_trans; eauto. Defined.
+Definition keeps {S} `{Shp S} (s0 s : S) : Prop := shp s s0.
+Lemma keeps_refl {S} `{Shp S} (s : S) : keeps s s. Proof. apply shp_refl. Qed.
+Lemma for_list_keeps {S} `{Shp S} l (b : Z -> S -> S) s0 :
+  (forall i s, In i l -> keeps s (b i s)) -> keeps s0 (for_list l b s0).
+Proof. intros Hb. apply (for_list_inv (fun s => keeps s0 s)); [apply shp_refl|]. intros i s Hi Hs.
+  unfold keeps in *. eapply shp_trans; [apply Hb; exact Hi | exact Hs]. Qed.
+
+Ltac keeps_leaf unf :=
+  unf; unfold keeps in *; cbn [shp Shp_arr Shp_pair fst snd] in *;
+  repeat match goal with X : (_ * _)%type |- _ => destruct X end; cbn [fst snd] in *;
+  repeat match goal with H : _ /\ _ |- _ => destruct H end;
+  repeat split; rewrite ?sig_set in *; congruence.
+
+(* Goal  Q (let x := v in F x).  Loops and conditional updates are cut out (one invariant each: the state keeps its
+   shapes w.r.t. the loop's initial state / the else-branch), other bindings are substituted.  `unf` unfolds Q. *)
+Ltac uwalk unf :=
+  cbv beta;
+  lazymatch goal with
+  | |- ?Q (let x := for_list ?l ?b ?s in @?F x) =>
+      let H := fresh "H" in let X := fresh "X" in
+      assert (H : keeps s (for_list l b s));
+      [ apply for_list_keeps; intros ? ? _; uwalk ltac:(idtac)
+      | revert H; generalize (for_list l b s); intros X H; change (Q (F X)); uwalk unf ]
+  | |- ?Q (let x := (if ?c then ?a else ?b) in @?F x) =>
+      let H := fresh "H" in let X := fresh "X" in
+      assert (H : keeps b (if c then a else b));
+      [ destruct c; [ uwalk ltac:(idtac) | apply keeps_refl ]
+      | revert H; generalize (if c then a else b); intros X H; change (Q (F X)); uwalk unf ]
+  | |- ?Q (let x := ?v in @?F x) =>
+      let G := eval cbv beta in (F v) in change (Q G); uwalk unf
+  | |- _ => keeps_leaf unf
+  end.
+
+(* ---------- two runs in lock-step: a binary walk ---------- *)
+(* related states, by type: integer arrays (the gradient sign bookkeeping) are unconstrained, everything else is equal *)
+Class Rel (S : Type) := rel : S -> S -> Prop.
+#[global] Instance Rel_arrZ : Rel (arr Z) | 0 := fun _ _ => True.
+#[global] Instance Rel_pair A B `{Rel A} `{Rel B} : Rel (A * B) | 1 := fun s t => rel (fst s) (fst t) /\ rel (snd s) (snd t).
+#[global] Instance Rel_eq A : Rel A | 100 := @eq A.
+
+Ltac brel_simpl_in H := cbv beta delta [rel Rel_arrZ Rel_pair Rel_eq] in H; cbn [fst snd] in H.
+Ltac bprep :=
+  repeat match goal with X : (_ * _)%type |- _ => destruct X end;
+  repeat match goal with
+         | H : rel _ _ |- _ => brel_simpl_in H
+         | H : _ /\ _ |- _ => destruct H
+         | H : True |- _ => clear H
+         | H : ?x = ?y |- _ => is_var x; is_var y; subst y
+         end.
+Ltac bleaf unf := unf; cbv beta delta [rel Rel_arrZ Rel_pair Rel_eq]; cbn [fst snd]; repeat split; reflexivity.
+
+Ltac bwalk unf :=
+  cbv beta;
+  lazymatch goal with
+  | |- ?Q (let x := for_list ?l ?b ?s in @?F x) (let x' := for_list ?l ?b' ?s' in @?F' x') =>
+      let H := fresh "H" in let X := fresh "X" in let X' := fresh "X" in
+      assert (H : rel (for_list l b s) (for_list l b' s'));
+      [ apply for_list_rel; [ bleaf ltac:(idtac) | intros ? ? ? _ ?; bprep; bwalk ltac:(idtac) ]
+      | revert H; generalize (for_list l b s), (for_list l b' s'); intros X X' H; bprep; bwalk unf ]
+  | |- ?Q (let x := (if ?c then ?a else ?b) in @?F x) (let x' := (if ?c' then ?a' else ?b') in @?F' x') =>
+      let H := fresh "H" in let X := fresh "X" in let X' := fresh "X" in
+      tryif (assert (H : rel (if c then a else b) (if c' then a' else b'))
+               by first [ bleaf ltac:(idtac) | constr_eq c c'; destruct c; bwalk ltac:(idtac) ])
+      then (revert H; generalize (if c then a else b), (if c' then a' else b'); intros X X' H; bprep; bwalk unf)
+      else (generalize (if c then a else b), (if c' then a' else b'); intros X X'; bwalk unf)
+  | |- ?Q (let x := ?v in @?F x) (let x' := ?v' in @?F' x') =>
+      let G := eval cbv beta in (F v) in let G' := eval cbv beta in (F' v') in change (Q G G'); bwalk unf
+  | |- _ => bleaf unf
+  end.
+
 (* ------------------------------------------------------------------------------------------ *)
 (* the pieces of fteik2d                                                                        *)
 (* ------------------------------------------------------------------------------------------ *)
 (* conversion must never unfold the big generated constants when comparing two calls *)
 Local Strategy 1000 [fteik2d_p1 fteik2d_p2 sweep2d].
+
+Section P2.
+Context {T : Type} `{Num T}.
+
+Definition tt_keeps (t0 : arr T) (r : arr T * arr T * arr Z) : Prop := sig (fst (fst r)) = sig t0.
+Lemma fteik2d_p2_sig dx dz grad iflag nx nz slow (tt : arr T) G S vzero xsa xsi zsa zsi :
+  tt_keeps tt (fteik2d_p2 dx dz grad iflag nx nz slow tt G S vzero xsa xsi zsa zsi).
+Proof.
+  cbv beta delta [fteik2d_p2].
+  lazymatch goal with |- tt_keeps ?t (let u := (if ?c then ?a else ?b) in _) =>
+    change (tt_keeps t (if c then a else b)); destruct c end.
+  - uwalk ltac:(unfold tt_keeps).
+  - uwalk ltac:(unfold tt_keeps).
+Qed.
+
+Definition tt_same (r r' : arr T * arr T * arr Z) : Prop := fst (fst r) = fst (fst r').
+Lemma fteik2d_p2_tt_indep dx dz iflag nx nz slow (tt : arr T) vzero xsa xsi zsa zsi grad grad' G G' S S' :
+  tt_same (fteik2d_p2 dx dz grad iflag nx nz slow tt G S vzero xsa xsi zsa zsi)
+          (fteik2d_p2 dx dz grad' iflag nx nz slow tt G' S' vzero xsa xsi zsa zsi).
+Proof.
+  cbv beta delta [fteik2d_p2].
+  lazymatch goal with |- tt_same (let u := (if ?c then ?a else ?b) in _) (let u' := (if ?c then ?a' else ?b') in _) =>
+    change (tt_same (if c then a else b) (if c then a' else b')); destruct c end.
+  - bwalk ltac:(unfold tt_same).
+  - bwalk ltac:(unfold tt_same).
+Qed.
+End P2.
 
 Section Solve.
 Context {T : Type} `{Num T}.
